@@ -467,7 +467,11 @@ func (e *Engine) callStatic(fn *ssa.Function, args []Value, bind []Value, pos to
 		return in(e, args, pos, fn)
 	}
 	if strings.HasPrefix(fn.Name(), "vp") && len(fn.Name()) > 2 && fn.Name()[2] >= 'A' && fn.Name()[2] <= 'Z' {
-		if in, ok := e.intr["vp:"+fn.Name()]; ok {
+		nm := fn.Name()
+		if i := strings.Index(nm, "["); i > 0 {
+			nm = nm[:i] // instantiation of a generic vp function
+		}
+		if in, ok := e.intr["vp:"+nm]; ok {
 			return in(e, args, pos, fn)
 		}
 	}
